@@ -295,7 +295,7 @@ def doc_cfg(maxprod, maxwords, palette=False, free=False, variants=True, maxline
                           nlex=len(W.LEXEMES) if free else 0)
 
 
-def generate(ctx, scale=1.0):
+def generate(ctx, scale=1.0, profile="all"):
     """Inputs for the cleaner: documents of WikiDoc.tla (clean grammar, attribute palette, free
     lexemes) and lexeme strings of WikiTokens.tla.  -> list of dicts (raw, lossless, kind, doc)"""
     quick = ctx.tier == "quick"
@@ -308,6 +308,10 @@ def generate(ctx, scale=1.0):
         ("palettelong", doc_cfg(70, 60, palette=True, maxline=9, minout=120), per(300 if quick else 3000), 75),
         ("free", doc_cfg(30, 20, palette=True, free=True, minout=40), per(400 if quick else 4000), 35),
     ]
+    if profile == "lossless":               # C07: only the clean grammar, more of it
+        plans = [("clean", doc_cfg(40, 30), per(1500 if quick else 15000), 45),
+                 ("cleanlong", doc_cfg(70, 60, maxline=9, minout=120), per(600 if quick else 6000), 75),
+                 ("cleanordinary", doc_cfg(50, 40, ordinary=True, maxline=10, minout=80), per(700 if quick else 7000), 55)]
     inputs, seen = [], set()
     gen_stats = {}
     import time as _time
@@ -343,6 +347,8 @@ def generate(ctx, scale=1.0):
     gen_stats["tiny"] = len(inputs) - n0
     # malformed strings from C01's input space (builder-tokens' WikiTokens.tla), when available
     try:
+        if profile == "lossless":
+            raise LookupError("not needed")
         from . import wikitext as WT
         if os.path.exists(os.path.join(VERIF, "spec", "WikiTokens.tla")):
             n0 = len(inputs)
@@ -365,6 +371,8 @@ def generate(ctx, scale=1.0):
                     seen.add(raw)
                     inputs.append({"raw": raw, "kind": "tokens", "doc": None, "lossless": False})
             gen_stats["tokens"] = len(inputs) - n0
+    except LookupError:
+        pass
     except Exception as e:                                           # noqa: BLE001  (optional source)
         ctx.note("WikiTokens strings not used (%s); malformed inputs come from WikiDoc's free lexemes only" % str(e)[:120])
     gen_stats["seconds"] = round(_time.time() - t0, 1)
